@@ -14,7 +14,7 @@ EXPLANATION = (
     "obligations L4 (identity-based unselected set, setup/teardown exemption), L1 (entity at a line -> its scenarios), "
     "L6 and L8 (one collector re-used for all files is fully re-initialised) of C10 are re-checked here because the "
     "two-run history depends on them.")
-NOT_DECIDED = "the closed loop on concrete files and paths (file system, relative path resolution); line arithmetic (see C10)"
+NOT_DECIDED = "the closed loop on concrete files and paths (file system, relative path resolution); line arithmetic beyond the sampled line database (see C10, L3)"
 TECHNIQUE = "static analysis: abstract evaluation of the rerun formatter on status tokens (decision tables), writer/reader format agreement over string formats and the regex AST, selection rules shared with C10"
 
 
